@@ -91,12 +91,17 @@ pub async fn scenario() {
 	rt::event("plan", format!("subs={n_subs} buf={buf} id_str={id_str} max_conc={max_conc} handler={with_handler} pushes={n_push} paces={paces:?} ends={ends:?} server_close={server_close:?}"));
 
 	let (wire, tx, rx) = Wire::new();
+	let (ping, req_timeout) = super::draw_ping();
+	let mut builder = Client::builder();
+	if let Some(p) = ping {
+		builder = builder.enable_ws_ping(p);
+	}
 	let client = Arc::new(
-		Client::builder()
+		builder
 			.max_buffer_capacity_per_subscription(buf)
 			.max_concurrent_requests(max_conc)
 			.id_format(if id_str { IdKind::String } else { IdKind::Number })
-			.request_timeout(Duration::from_secs(60))
+			.request_timeout(req_timeout)
 			.build_with_tokio(tx, rx),
 	);
 	let subs: Arc<Mutex<Vec<SubRec>>> = Arc::new(Mutex::new((0..n_subs).map(|i| SubRec { nonce: i as u64 + 1, server_close_planned: server_close[i as usize], ..Default::default() }).collect()));
